@@ -313,6 +313,22 @@ def bounded_passthrough(reg, tier, seed):
                     fail(f"text field payload {p!r}: not byte-identical after {order}", {"payload": p.hex(), "order": order})
             except Exception as e:  # noqa
                 fail(f"text field payload {p!r}: {order} raised {e!r}", {"payload": p.hex(), "order": order})
+    # a float field whose four bytes are a signalling NaN (any bit pattern is legal on the wire)
+    for pattern in ("0100807f", "0100c07f", "000080ff", "ffffff7f", "010080ff"):
+        m = Message("HealthMessage", Block("HealthData", Health=1.0), packet_id=5)
+        data = bytearray(ser.serialize(m))
+        data[-4:] = bytes.fromhex(pattern)
+        data = bytes(data)
+        for order in ("never", "blocks", "eager"):
+            evals += 1
+            seen.add(("f32-bits", pattern, order))
+            try:
+                out, _ = reencode(data, order)
+                if out != data:
+                    failures.append({"key": "passthrough/snan-f32", "clause": f"F32 field with wire bytes {pattern} (a signalling NaN): after {order} the datagram "
+                                     f"re-encodes with {out[-4:].hex()} in that field", "input": {"datagram": data.hex(), "order": order}, "observed": out.hex()})
+            except Exception as e:  # noqa
+                fail(f"F32 field with wire bytes {pattern}: {order} raised {e!r}", {"datagram": data.hex(), "order": order})
     return {"name": "passthrough-fidelity", "evaluations": evals, "distinct_nontrivial": len(seen),
             "rule": f"{len(tmpls)} templates: encoder output, then non-canonically re-zero-coded / truncated / extended / bit-flipped bodies that "
                     "the header parser still accepts x inspection orders {never, header only, lazy blocks, eager, failing lazy blocks}; "
